@@ -164,6 +164,18 @@ FN2 == {  \* two parameters: binding order, left-to-right evaluation, by-value, 
      <<Say(Call("loc", <<N(4)>>)), SayS("unreachable")>> >>,
   << <<SFunc(0, "helper", <<"a">>, <<Ret(PlusE(Var("a"), Var("a")))>>)>>,
      <<SIf(0, Lit(Bool(TRUE)), <<Put(N(1), "helper"), Say(Call("helper", <<N(3)>>))>>, FALSE, <<>>), SayS("unreachable")>> >>,
+  << <<SFunc(0, "helper", <<"a">>, <<Ret(PlusE(Var("a"), Var("a")))>>)>>,          \* the same right after a call of that function
+     <<Say(Call("helper", <<N(2)>>)), SIf(0, Lit(Bool(TRUE)), <<Put(N(1), "helper"), Say(Call("helper", <<N(3)>>))>>, FALSE, <<>>), SayS("unreachable")>> >>,
+  << <<SFunc(0, "helper", <<"a">>, <<Ret(PlusE(Var("a"), Var("a")))>>)>>,
+     <<SFunc(0, "outer", <<"helper">>, <<Ret(Call("helper", <<N(1)>>))>>)>>,
+     <<Say(Call("outer", <<Call("helper", <<N(2)>>)>>)), SayS("unreachable")>> >>,
+  \* an assignment reads its right-hand side completely before it writes: `put x plus (a call that changes x) into x` uses the x
+  \* read BEFORE the call; and a self-update of a name that does not exist is an error like any other read of it
+  << <<SFunc(0, "fun", <<"p">>, <<Put(PlusE(Var("x"), Var("p")), "x"), Ret(Var("p"))>>)>>,
+     <<Put(N(10), "x"), Put(PlusE(Var("x"), Call("fun", <<N(5)>>)), "x"), Say(Var("x")),
+       Put(Bin("times", Var("x"), <<Call("fun", <<N(2)>>)>>), "x"), Say(Var("x"))>> >>,
+  << <<SayS("before"), Put(PlusE(Var("nope"), N(1)), "nope"), SayS("unreachable")>> >>,
+  << <<Put(S("a"), "x"), Put(PlusE(Var("x"), S("b")), "x"), Put(PlusE(Var("x"), Var("x")), "x"), Say(Var("x"))>> >>,
   \* ... and the other way round: a function defined in an inner scope hides a variable of that name for reading
   << <<Put(N(5), "v")>>,
      <<SIf(0, Lit(Bool(TRUE)), <<SFunc(0, "v", <<"a">>, <<Ret(Var("a"))>>), Say(Call("v", <<N(1)>>)), Say(Var("v"))>>, FALSE, <<>>), SayS("unreachable")>> >>,
@@ -244,7 +256,10 @@ LTPrograms(z) == {
      <<Put(Bin("times", N(2), <<N(3), N(4)>>), "x"), Say(Call("f", <<Var("x")>>)), Say(Var("x"))>>,
      <<SRock(0, Var("a"), <<N(1), N(2)>>), SRock(0, Var("a"), <<Bin("over", N(1), <<N(2)>>)>>), Say(Var("a"))>> >>,
   << <<Put(Var("x"), "y"), Put(Bin("minus", N(0), <<N(1)>>), "x")>>, <<SPStr(0, Var("h"), "some text"), Say(Var("h")), Say(Var("h"))>>,
-     <<SUntil(0, Lit(Bool(TRUE)), <<Put(Lit(Fin(96)), "x")>>), Put(S(""), "k"), SAssign(0, Var("x"), "plus", <<N(1)>>), Say(Var("x"))>> >>
+     <<SUntil(0, Lit(Bool(TRUE)), <<Put(Lit(Fin(96)), "x")>>), Put(S(""), "k"), SAssign(0, Var("x"), "plus", <<N(1)>>), Say(Var("x"))>> >>,
+  \* a string literal that holds a line break: the statement starts on the line its first token is on, later statements move down
+  << <<Put(S("two" \o "\n" \o "lines"), "x"), Put(N(7), "y"), SRock(0, Var("a"), <<S("one" \o "\n" \o "more")>>), Put(N(8), "y")>>,
+     <<SIf(0, Var("x"), <<Put(S("a" \o "\n" \o "\n" \o "b"), "h"), Put(N(1), "k")>>, FALSE, <<>>)>> >>
 }
 
 -----------------------------------------------------------------------------
